@@ -89,6 +89,16 @@ func cfgOf(s Scenario) vsched.ExploreConfig {
 
 // Run executes all scenarios (or acts as worker / replayer, depending on flags). It does not call r.Finish().
 func Run(r *ev.Run, scs []Scenario) {
+	// Work caps are counted in executions, not seconds, so that two runs of the same tier do the same
+	// work whatever the machine load (the wall-clock budget stays as a safety net only).
+	for i := range scs {
+		if scs[i].MaxExec == 0 && scs[i].Group == "" {
+			scs[i].MaxExec = ev.Pick(r, int64(400000), int64(6000000))
+		}
+		if scs[i].Budget > 0 && !r.Thorough() {
+			scs[i].Budget = 10 * time.Minute
+		}
+	}
 	byName := map[string]Scenario{}
 	for _, s := range scs {
 		if _, dup := byName[s.Name]; dup {
@@ -416,6 +426,7 @@ func runScenario(r *ev.Run, s Scenario) {
 	// exhaust the space is the scenario sharded over worker processes.
 	probe := cfgOf(s)
 	probe.MaxExec = 400
+	probe.Deadline = time.Now().Add(2 * time.Second)
 	if pst := vsched.Explore(probe, s.Body); pst.Exhaustive || pst.HarnessError != "" || len(pst.Found) > 0 {
 		results = []*vsched.Stats{pst}
 		workers = 0
